@@ -175,6 +175,7 @@ type simConn struct {
 	strictDeadlines bool   // deadline calls fail once the connection is closed (package net behaviour)
 	// slow Close
 	closeGate   bool
+	closeErr    bool // Close reports a failure (it closes all the same)
 	atCloseGate bool
 }
 
@@ -335,6 +336,9 @@ func (c *simConn) Close() error {
 		c.closed = true
 		c.log.add("ev close %d", c.id)
 		c.cond.Broadcast()
+	}
+	if c.closeErr {
+		return errHard
 	}
 	return nil
 }
